@@ -591,6 +591,7 @@ DOCS = [
     ('zero_and_negative', 'entity\n{\n"id" "0"\n"classname" "a"\n}\nentity\n{\n"id" "-3"\n"classname" "b"\n}\n'),
     ('missing', 'entity\n{\n"classname" "a"\n}\nentity\n{\n"classname" "b"\n}\n'),
     ('fixup_dup', 'entity\n{\n"id" "1"\n"classname" "func_instance"\n"replace01" "$a 1"\n"replace01" "$b 2"\n}\n'),
+    ('fixup_dup_before_lower', 'entity\n{\n"id" "1"\n"classname" "func_instance"\n"replace02" "$a 1"\n"replace02" "$b 2"\n"replace01" "$c 3"\n}\n'),
     ('fixup_zero', 'entity\n{\n"id" "1"\n"classname" "func_instance"\n"replace00" "$a 1"\n"replace01" "$b 2"\n}\n'),
     ('fixup_negative', 'entity\n{\n"id" "1"\n"classname" "func_instance"\n"replace-1" "$a 1"\n}\n'),
     ('dup_solids', 'world\n{\n"id" "1"\n"classname" "worldspawn"\nsolid\n{\n"id" "2"\n}\nsolid\n{\n"id" "2"\n}\n}\n'),
